@@ -8,7 +8,8 @@
 EXTENDS Semantics, Json, IOUtils, Ring64
 Trace == ndJsonDeserialize(IOEnv.TRACE)
 VARIABLE l
-IsRed(f) == f \in {"fn:count", "fn:sum", "fn:min", "fn:max", "fn:avg", "fn:collect_distinct"}
+IsRed(f) == f \in {"fn:count", "fn:sum", "fn:min", "fn:max", "fn:avg", "fn:collect_distinct",
+                   "fn:time:max", "fn:time:min", "fn:duration:max", "fn:duration:min", "fn:duration:sum"}
 \* int64 boundary vectors (Ring64.tla): arguments and numeric results are <<"w", a, b>>
 IsRing(e) == "ring" \in DOMAIN e /\ e.ring
 WOf(x) == W(x[2], x[3])
@@ -40,10 +41,13 @@ ObsSols(e) == {{<<b[1], Norm(b[2])>> : b \in Ran(sol)} : sol \in Ran(e.sols)}
 MatchOK(e) == IF e.err THEN SolSet(e) = {} ELSE ObsSols(e) = {{<<b[1], Norm(b[2])>> : b \in sol} : sol \in SolSet(e)}
 \* ground predicates: string tests, name prefix, time and duration comparisons (one total order per type)
 IsGroundPred(e) == e.f \in {":string:starts_with", ":string:ends_with", ":string:contains", ":match_prefix",
-                             ":time:lt", ":time:le", ":time:gt", ":time:ge", ":duration:lt", ":duration:le", ":duration:gt", ":duration:ge"}
+                             ":time:lt", ":time:le", ":time:gt", ":time:ge", ":duration:lt", ":duration:le", ":duration:gt", ":duration:ge"} \cup IntervalPreds
+\* an interval argument: a pair of instants or (as the implementation reads it) of plain numbers, start <= end
+IsIvArg(v) == IsPair(v) /\ v[2][1] = v[3][1] /\ v[2][1] \in {"t", "n"} /\ v[2][2] <= v[3][2]
 PredDefined(e) ==
   CASE e.f \in {":string:starts_with", ":string:ends_with", ":string:contains"} -> IsStr(e.a[1]) /\ IsStr(e.a[2])
     [] e.f = ":match_prefix" -> IsName(e.a[2])
+    [] e.f \in IntervalPreds -> IsIvArg(e.a[1]) /\ IsIvArg(e.a[2]) /\ e.a[1][2][1] = e.a[2][2][1]
     [] e.f \in {":time:lt", ":time:le", ":time:gt", ":time:ge"} -> e.a[1][1] \in {"t", "tw"} /\ e.a[2][1] = e.a[1][1]
     [] OTHER -> e.a[1][1] \in {"d", "dw"} /\ e.a[2][1] = e.a[1][1]
 PredHolds(e) ==
@@ -51,6 +55,7 @@ PredHolds(e) ==
     [] e.f = ":string:ends_with" -> EndsWith(e.a[1][2], e.a[2][2])
     [] e.f = ":string:contains" -> ContainsStr(e.a[1][2], e.a[2][2])
     [] e.f = ":match_prefix" -> IsName(e.a[1]) /\ BelowPrefix(e.a[1][2], e.a[2][2])
+    [] e.f \in IntervalPreds -> IntervalHolds(e.f, <<e.a[1][2][2], e.a[1][3][2]>>, <<e.a[2][2][2], e.a[2][3][2]>>)
     [] e.f \in {":time:lt", ":duration:lt"} -> e.a[1][2] < e.a[2][2]
     [] e.f \in {":time:le", ":duration:le"} -> e.a[1][2] <= e.a[2][2]
     [] e.f \in {":time:gt", ":duration:gt"} -> e.a[1][2] > e.a[2][2]
